@@ -40,6 +40,23 @@ SHRINK_CHECKS = 20
 @st.composite
 def cases(draw, stratum):
     feats = S.Features(meta=False, positive=False)
+    if stratum == 'purge':
+        # an app is removed from INSTALLED_APPS and purged in the upgrade run
+        spec = None
+        for _ in range(4):
+            spec = draw(S.project_specs(S.Features(meta=False, positive=False, two_apps=True),
+                                        min_models=2))
+            ok = 'pb' in spec['apps'] and not any(
+                f['target'] and f['target'][0] == 'pb'
+                for a, _n, m in S.iter_models(spec) if a == 'pa' for f in m['fields'])
+            if ok:
+                break
+        from .. import mutgen
+        spec = mutgen.ensure_uids(spec)
+        h = {'v0': spec, 'steps': []}
+        rows, links = draw(EC.rows_for(spec, [], 2))
+        return {'history': h, 'rows': rows, 'links': links, 'entry': 'api', 'stratum': 'purge',
+                'purge_app': 'pb'}
     if stratum == 'single':
         h = draw(H.histories(feats, max_steps=1, min_steps=1, allow_new_model=False,
                              allow_new_app=False, apps=('pa',)))
@@ -59,8 +76,9 @@ def cases(draw, stratum):
 
 def jobs(tier, scale=1.0):
     per = max(1, int((6 if tier == 'quick' else 80) * scale))
-    return [{'kind': 'hyp', 'stratum': 'single' if i % 4 != 3 else 'multi', 'shard': i,
-             'examples': per} for i in range(16)]
+    strata = ['single', 'single', 'purge', 'multi']
+    return [{'kind': 'hyp', 'stratum': strata[i % 4], 'shard': i, 'examples': per}
+            for i in range(16)]
 
 
 def run_job(job, seed, rec, tier):
@@ -120,6 +138,18 @@ def check(case):
         out['evaluations'] = 1
         return out
     n = len(vers) - 1
+    purge_app = case.get('purge_app')
+    if purge_app:
+        if purge_app not in vers[0]['spec']['apps'] or len(vers[0]['apps']) < 2:
+            out['rejected'] = 'no_app_to_purge'
+            out['evaluations'] = 1
+            return out
+        gone = copy.deepcopy(vers[n])
+        gone['apps'] = [a for a in gone['apps'] if a != purge_app]
+        gone['spec']['apps'].pop(purge_app, None)
+        gone['evolutions'].pop(purge_app, None)
+        vers = vers + [gone]
+        n = len(vers) - 1
     if n < 1:
         out['rejected'] = 'empty_history'
         out['evaluations'] = 1
@@ -145,8 +175,11 @@ def check(case):
             out['atoms'] = []
             out['evaluations'] = 1
             return out
+        up = c04.upgrade_step(case['entry'])
+        if purge_app:
+            up = {'op': 'evolve_api', 'purge': True, 'force': True}
         sweep = P.run_driver(dirs[1], db, {'steps': [
-            {'op': 'fault_sweep', 'upgrade': c04.upgrade_step(case['entry']),
+            {'op': 'fault_sweep', 'upgrade': up,
              'max_faults': case.get('max_faults')}], 'dump': []}, timeout=600)
     if sweep.get('driver_error') or 'sweep' not in sweep:
         atoms.append(['driver_error', str(sweep.get('driver_error'))[-300:]])
